@@ -56,9 +56,10 @@ func (r *runner) opPublish(kv map[string]string) (string, string) {
 		return "bad-op", ""
 	}
 	ans, notify := kv["ans"], kv["notify"]
-	cls := answerClass(ans)
+	cls := intendedClass(ans) // the oracle goes by what the backend meant …
+	real := answerClass(ans)  // … the ledger follows what the wallet was told by chain/errors.go
 	if notify == "fail" {
-		cls = "notifyfail"
+		cls, real = "notifyfail", "notifyfail"
 	}
 	before, err := r.snap()
 	if err != nil {
@@ -150,6 +151,20 @@ func (r *runner) opPublish(kv map[string]string) (string, string) {
 		}
 	case "known", "confirmed":
 		r.forget(ti.name)
+	}
+	if real != cls {
+		// the mapping disagrees with the backend's meaning: keep the ledger in line with what the wallet did
+		if m := misclassified(ans); m != "" {
+			viols = append(viols, m)
+		}
+		switch real {
+		case "rejected", "known", "confirmed":
+			r.forget(ti.name)
+		case "mempool", "accepted":
+			if ti.height < 0 {
+				ti.known = true
+			}
+		}
 	}
 	if perr != nil {
 		return "err", strings.Join(viols, "; ")
@@ -284,6 +299,11 @@ func (r *runner) opResync(kind string, kv map[string]string) (string, string) {
 	for _, n := range want {
 		if contains(offered, n) == 0 {
 			viols = append(viols, fmt.Sprintf("C20 key=resendUnminedTxs.not-offered: still-unconfirmed %s was not offered to the backend after the rescan", n))
+		}
+	}
+	for _, n := range offered {
+		if m := misclassified(answers[n]); m != "" {
+			viols = append(viols, m)
 		}
 	}
 	// ledger: apply the answers in the order the wallet used
